@@ -74,7 +74,10 @@ def strategy_(draw, tier):
     for _ in range(draw(st.integers(1, 8))):
         steps = draw(path_steps(g, lm, ids))
         paths.append(models.path_str(steps))
-    return {"gfa": g["text"], "paths": paths, "fasta": draw(st.booleans())}
+    if len(paths) >= 2 and draw(st.integers(0, 2)) == 0:
+        paths.insert(draw(st.integers(0, len(paths))), paths[draw(st.integers(0, len(paths) - 1))])
+    return {"gfa": g["text"], "paths": paths, "fasta": draw(st.booleans()),
+            "via": draw(st.sampled_from(["api", "api", "cli", "cli_stdout"]))}
 
 
 def strategy(tier):
@@ -130,11 +133,25 @@ def run_case(case):
                         classes.add("selfstep")
                     if e:
                         classes.add("step" + o1 + o2)
-        # CLI: file of paths
+        # find_path on a file of paths (API call, command line with -o, or command line to standard output)
+        via = case.get("via", "api")
+        classes.add("via:" + via)
         core.write_text(d + "/paths.txt", "".join(p + "\n" for p in paths))
-        r = core.call(find_path.run, d + "/g.gfa", d + "/paths.txt", output=d + "/out.txt", fasta=case["fasta"])
+
+        def run_fp(arg, out_path, fasta):
+            if via == "api":
+                r = core.call(find_path.run, d + "/g.gfa", arg, output=out_path, fasta=fasta)
+                return r, (core.read_text(out_path) if r[0] == "ok" else None)
+            argv = ["find_path", d + "/g.gfa", arg] + (["-f"] if fasta else [])
+            if via == "cli":
+                r = core.cli(argv + ["-o", out_path])
+                return r, (core.read_text(out_path) if r[0] == "ok" else None)
+            r = core.cli(argv, capture_stdout=True)
+            return r, (r[1] if r[0] == "ok" else None)
+
+        r, text = run_fp(d + "/paths.txt", d + "/out.txt", case["fasta"])
         core.check(r[0] == "ok", "find_path on a file of paths failed: %s", r)
-        out = core.read_text(d + "/out.txt").split("\n")
+        out = text.split("\n")
         core.check(out[-1] == "", "find_path output does not end with a newline")
         out = out[:-1]
         if case["fasta"]:
@@ -144,12 +161,13 @@ def run_case(case):
         else:
             want = list(exp)
         core.check(out == want, "find_path file output %r, expected %r", out, want)
-        # CLI: literal path
-        r = core.call(find_path.run, d + "/g.gfa", paths[0], output=d + "/out1.txt", fasta=not case["fasta"])
+        # a literal path
+        r, text = run_fp(paths[0], d + "/out1.txt", not case["fasta"])
         core.check(r[0] == "ok", "find_path on a literal path failed: %s", r)
-        out = core.read_text(d + "/out1.txt")
         want = (">seq_%s\n" % paths[0] if not case["fasta"] else "") + exp[0] + "\n"
-        core.check(out == want, "find_path literal output %r, expected %r", out, want)
+        core.check(text == want, "find_path literal output %r, expected %r", text, want)
+        if len(set(paths)) < len(paths):
+            classes.add("repeated_path_in_file")
     nontrivial = "walk>=2" in classes and "nonwalk>=2" in classes
     return core.Result(nontrivial, sorted(classes))
 
